@@ -31,6 +31,10 @@ PARTIAL = [
     "(C03_ne_null_counterexample; D9, reported by the support search, sig kind=parquet)",
     "AsType is flagged _filter_passthrough although a cast can change the value a predicate reads "
     "(C03_cross_value_changing_counterexample; D8, reported by family category_conformance and the support search)",
+    "C03_or_rewrite_parent_partial: Filter._simplify_up re-assembles its parent as type(parent)(new, *operands[1:]), correct "
+    "only when the filter is the parent's first operand (C03_or_rewrite_parent_counterexample; the real code returns wrong "
+    "rows / raises for Merge right inputs, binop right operands, Concat frames: support search, or_rewrite=True, "
+    "filter_is_first_operand=False)",
     "_check_dependents_are_predicates (graph walk) is not modelled: its result is an input of the model, "
     "the end-to-end search covers shared consumers",
     "(true,true) both-sides push on a key column is proven for inner/left/leftsemi only (the code never does it for right/outer)",
@@ -784,8 +788,81 @@ def fam_conformance(ctx):
     return f
 
 
+def fam_or_parent(ctx):
+    """T2: the parent re-assembly of Filter._simplify_up after OR-factoring = `type(parent)(new, *operands[1:])`."""
+    import dask_expr as dx
+    from dask_expr._core import collect_dependents
+    from dask_expr._expr import Expr, Filter, rewrite_filters
+
+    f = Family("Filter._simplify_up[OR rewrite: parent re-assembly by operand position]")
+    pdf = pd.DataFrame({"a": [1.0, 2.0, None, 4.0], "b": [1, 2, 3, 4], "c": [5.0, None, 7.0, 8.0]})
+    df = dx.from_pandas(pdf, npartitions=2)
+    other = dx.from_pandas(pdf.rename(columns={"a": "x", "c": "y"}), npartitions=2)
+    preds = {
+        "factor": lambda d: ((d.b > 1) & (d.a > 1)) | ((d.b > 1) & (d.c > 5)),
+        "dup": lambda d: (d.b > 1) | (d.b > 1),
+        "consume": lambda d: ((d.b > 1) & (d.a > 1)) | (d.b > 1),
+        "nofire": lambda d: (d.b > 1) | (d.a > 1),
+    }
+    parents = {
+        "projection": lambda q: q[["a", "b"]],
+        "sum": lambda q: q.sum(),
+        "merge_left": lambda q: q.merge(other, on="b"),
+        "merge_right": lambda q: other.merge(q, on="b"),
+        "add_left": lambda q: q + df,
+        "add_right": lambda q: df + q,
+        "concat_first": lambda q: dx.concat([q, df]),
+        "concat_second": lambda q: dx.concat([df, q]),
+        "filter_parent": lambda q: q[q.a > 0],
+        "assign_value": lambda q: df.assign(z=q.a),
+    }
+    reqs, code, inputs, nontriv = [], [], [], []
+    for pn, pf in preds.items():
+        for parn, parf in parents.items():
+            q = df[pf(df)]
+            fil = q.expr
+            par = parf(q).expr
+            # the direct parent of the filter inside `par`
+            parent = next((e for e in par.walk() if any(isinstance(o, Expr) and o._name == fil._name for o in e.operands)), None)
+            if parent is None or not isinstance(fil, Filter):
+                continue
+            deps = collect_dependents(par)
+            res = fil._simplify_up(parent, deps)
+            fired = rewrite_filters(fil.predicate)._name != fil.predicate._name
+            toks = ["self" if isinstance(o, Expr) and o._name == fil._name else f"o{i}" for i, o in enumerate(parent.operands)]
+            if not fired:
+                continue  # the other branches of _simplify_up are not this family's subject
+            new = Filter(fil.frame, rewrite_filters(fil.predicate))
+            if res is None or type(res) is not type(parent):
+                got = "?" + type(res).__name__
+            else:
+                out = []
+                for i, o in enumerate(res.operands):
+                    if isinstance(o, Expr) and o._name == new._name:
+                        out.append("new")
+                    elif isinstance(o, Expr):
+                        j = next((j for j, oo in enumerate(parent.operands) if isinstance(oo, Expr) and oo._name == o._name), None)
+                        out.append("?" if j is None else toks[j])
+                    else:
+                        same = i < len(parent.operands) and not isinstance(parent.operands[i], Expr) and (
+                            parent.operands[i] is o or repr(parent.operands[i]) == repr(o))
+                        out.append(toks[i] if same else "?")
+                got = ",".join(out)
+            reqs.append("pred rebuild ops=" + ",".join(toks))
+            code.append(got)
+            inputs.append({"pred": pn, "parent": parn, "parent_class": type(parent).__name__, "operands": ",".join(toks)})
+            nontriv.append(toks[0] != "self")
+    model = drive(reqs)
+    f.compare(inputs, code, model, nontriv)
+    f.exhaustive = True
+    f.note = ("the model transliterates the re-assembly as written; C03_or_rewrite_parent_partial proves it correct only when the "
+              "filter is the parent's first operand — positions reached with the filter elsewhere: "
+              + str(sorted({i["parent"] for i, nt in zip(inputs, nontriv) if nt})))
+    return f
+
+
 def families(ctx):
-    return [fam_rewrite, fam_dnf, fam_pyarrow, fam_merge, fam_pushavail, fam_conformance]
+    return [fam_rewrite, fam_or_parent, fam_dnf, fam_pyarrow, fam_merge, fam_pushavail, fam_conformance]
 
 
 # =========================================================================== end-to-end support / failing-input search
@@ -818,8 +895,15 @@ ATOMS = {
     "b>=d": lambda x: x["b"] >= x["d"],
     "a>0": lambda x: x["a"] > 0,
     "d<bmax": lambda x: x["d"] < x["b"].max(),  # column vs reduction over the filtered frame itself
+    # the index as predicate operand (skipped for operators after which dask's index is unspecified)
+    "idx>12": lambda x: x.index.to_series() > 12,
+    # the former index as a column (only constructible after reset_index)
+    "index>12": lambda x: x["index"] > 12,
+    "index<b+11": lambda x: x["index"] < x["b"] + 11,
 }
 ATOM_NAMES = list(ATOMS)
+IDX_ATOM = ATOM_NAMES.index("idx>12")
+FORMER_INDEX_ATOMS = [ATOM_NAMES.index("index>12"), ATOM_NAMES.index("index<b+11")]
 
 
 def eval_tree(t, x, atoms=ATOMS, names=ATOM_NAMES):
@@ -848,6 +932,7 @@ def _ops():
         "rename": (lambda d: d.rename(columns={"a": "A", "c": "C"}).rename(columns={"A": "a", "C": "c"}), lambda p: p, False, False),
         "astype": (lambda d: d.astype({"b": "float64"}), lambda p: p.astype({"b": "float64"}), False, False),
         "astype_int": (lambda d: d.fillna(0).astype("int64"), lambda p: p.fillna(0).astype("int64"), False, False),
+        "astype_Int64": (lambda d: d.astype({"c": "Int64"}), lambda p: p.astype({"c": "Int64"}), False, False),
         "reset_index": (lambda d: d.reset_index(), lambda p: p.reset_index(), False, True),
         "reset_index_drop": (lambda d: d.reset_index(drop=True), lambda p: p.reset_index(drop=True), False, True),
         "rename_axis": (lambda d: d.rename_axis(index="ii"), lambda p: p.rename_axis(index="ii"), False, False),
@@ -863,7 +948,7 @@ def _ops():
     }
 
 
-SHARED = ["none", "other_consumer", "pred_reduction", "two_filters"]
+SHARED = ["none", "other_consumer", "pred_reduction", "two_filters", "then_project", "then_index"]
 
 
 def run_cross(case):
@@ -873,6 +958,8 @@ def run_cross(case):
     pdf = _data()
     dfn, pfn, order_free, drop_index = _ops()[case["op"]]
     t = _tuple_tree(case["tree"])
+    if drop_index and IDX_ATOM in tree_atoms(t):
+        raise ValueError("index atom after an operator that leaves the index unspecified")
     df = dx.from_pandas(pdf, npartitions=case.get("npartitions", 3), sort=False)
     x = dfn(df)
     px = pfn(pdf)
@@ -896,6 +983,12 @@ def run_cross(case):
             return f"raised {r[1]}: {r[2]}"
         exp2 = pd.concat([exp, px[px["d"] > 1]])
         return None if e2e.same(r[1], exp2, sort_rows=True, drop_index=True) else _diff("two filters", exp2, r[1])
+    if shared == "then_project":
+        q, exp = q[["b", "a"]], exp[["b", "a"]]
+    if shared == "then_index":
+        if drop_index:
+            return None
+        q, exp = q.index, exp.index
     r = e2e.run_or_err(lambda: q.compute())
     if r[0] == "err":
         return f"raised {r[1]}: {r[2]}"
@@ -991,7 +1084,7 @@ def _or_rewrite_fires(t):
     import dask_expr as dx
     from dask_expr._expr import Or, rewrite_filters
 
-    df = dx.from_pandas(_data(), npartitions=2, sort=False)
+    df = dx.from_pandas(_data().reset_index(), npartitions=2, sort=False)  # has every column an atom may read
     e = eval_tree(t, df).expr
     return isinstance(e, Or) and rewrite_filters(e)._name != e._name
 
@@ -1062,7 +1155,11 @@ def _sig(case):
     if case["kind"] == "cross":
         op = case["op"]
         sh = case.get("shared", "none")
+        atoms_used = set(tree_atoms(_tuple_tree(case["tree"])))
+        fi = atoms_used & set(FORMER_INDEX_ATOMS)
+        mixed = bool(fi) and (len(atoms_used) > 1 or ATOM_NAMES.index("index<b+11") in fi)
         return {"kind": "cross", "op": "astype" if op.startswith("astype") else op, "shared": sh,
+                "former_index": "mixed" if mixed else "only" if fi else "none",
                 "or_rewrite": _or_rewrite_fires(_tuple_tree(case["tree"])),
                 "filter_is_first_operand": sh not in ("other_consumer", "two_filters")}  # those put the filter under Concat
     if case["kind"] == "operand":
@@ -1101,13 +1198,26 @@ def _pred_trees(ctx, natoms, n_small_all, n_sample, max_size=5):
     return out
 
 
+# minimal witnesses of every failure class met so far; always executed first, in both tiers (regression corpus)
+CORPUS = [
+    {"kind": "cross", "op": "astype_int", "tree": ["a", 9], "shared": "none"},                    # D8: a>0 below astype(int64)
+    {"kind": "cross", "op": "astype_Int64", "tree": ["a", 3], "shared": "none"},                  # D8: c!=2 below astype(Int64)
+    {"kind": "parquet", "tree": ["a", 3], "files": 1},                                             # D9: a != 2 pushed to the reader
+    {"kind": "merge", "how": "left", "suffixes": ["_x", ""], "col": "b", "pred": "gt", "shape": "single"},   # wrong join side
+    {"kind": "operand", "position": "merge_right", "tree": ["or", ["a", 5], ["a", 5]], "how": "inner"},    # OR rewrite, filter not operand 0
+    {"kind": "operand", "position": "binop_right", "tree": ["or", ["a", 5], ["a", 5]], "how": "inner"},
+    {"kind": "operand", "position": "concat_first", "tree": ["or", ["a", 5], ["a", 5]], "how": "inner"},
+    {"kind": "cross", "op": "reset_index", "tree": ["and", ["a", 12], ["a", 9]], "shared": "none"},   # former index & a column
+]
+
+
 def _cases(ctx, broken):
     rng = ctx.rng
     cases = []
     ops = list(_ops())
     # every operator kind x every single atom (+ its negation), then sampled trees <= 5 nodes
     for op in ops:
-        trees = _pred_trees(ctx, len(ATOM_NAMES), 2, 6 if ctx.quick else 60)
+        trees = _pred_trees(ctx, len(ATOM_NAMES), 2, 6 if ctx.quick else 150)
         if ctx.quick:
             keep = [t for t in trees if tree_size(t) == 1] + rng.sample([t for t in trees if tree_size(t) > 1], 8)
         else:
@@ -1115,8 +1225,13 @@ def _cases(ctx, broken):
         for t in keep:
             cases.append({"kind": "cross", "op": op, "tree": _jsonable_tree(t), "shared": "none"})
         for sh in SHARED[1:]:
-            for t in rng.sample(trees, 2 if ctx.quick else 12):
+            for t in rng.sample(trees, 2 if ctx.quick else 25):
                 cases.append({"kind": "cross", "op": op, "tree": _jsonable_tree(t), "shared": sh})
+        if op in ("reset_index", "two_ops_named"):
+            i1, i2 = FORMER_INDEX_ATOMS
+            for t in [("a", i1), ("a", i2), ("and", ("a", i1), ("a", 9)), ("or", ("a", i1), ("a", 6)), ("not", ("a", i1)),
+                      ("and", ("a", 9), ("a", i1)), ("and", ("a", i1), ("a", i2))]:
+                cases.append({"kind": "cross", "op": op, "tree": _jsonable_tree(t), "shared": "none"})
     # the filter as first / non-first operand of a multi-input parent; predicates on which OR-factoring fires and not
     fact = [("or", ("and", ("a", 9), ("a", 5)), ("and", ("a", 9), ("a", 6))), ("or", ("a", 5), ("a", 5)),
             ("or", ("and", ("a", 0), ("a", 5)), ("a", 5)), ("or", ("a", 0), ("a", 5)), ("and", ("a", 9), ("or", ("a", 5), ("a", 6))),
@@ -1134,7 +1249,7 @@ def _cases(ctx, broken):
     for c in (singles[:130] + others[:60]) if ctx.quick else mc:
         cases.append({"kind": "merge", **c})
     # parquet (arrow filesystem pushes filters)
-    pt = _pred_trees(ctx, len(PQ_NAMES), 1, 30 if ctx.quick else 400)
+    pt = _pred_trees(ctx, len(PQ_NAMES), 1, 30 if ctx.quick else 700)
     for t in pt:
         cases.append({"kind": "parquet", "tree": _jsonable_tree(t), "files": rng.choice([1, 2, 3]),
                       "existing": rng.random() < 0.25, "project": rng.random() < 0.25})
@@ -1171,7 +1286,7 @@ def _cases(ctx, broken):
             for op in ops:
                 for i in range(len(ATOM_NAMES)):
                     steered.append({"kind": "cross", "op": op, "tree": ["a", i], "shared": "none"})
-    return steered + cases
+    return [dict(c) for c in CORPUS] + steered + cases
 
 
 def _parse_sexpr(s):
